@@ -281,6 +281,38 @@ def processes_design(ck, b=None, cloud=False):
     return fails
 
 
+def twins_design(ck):
+    """(shared with C11: the per-event worker is a function of each event's five inputs)"""
+    import dask
+    from nuspacesim.simulation.eas_optical.cphotang import CphotAng
+
+    fails = []
+    # events that are identical in angle, altitude and energy but start at different places under a location-dependent cloud model, and an
+    # event whose cloud top is undefined (NaN: no value in the map there -- nothing is hidden, as without a cloud)
+    m_ = 6
+    twins = [np.full(m_, np.radians(8.0)), np.full(m_, 1.5), np.full(m_, 1.0), np.array([0.1, -0.2, 0.3, -0.4, 0.5, -0.6]), np.linspace(-1.0, 1.0, m_)]
+
+    def cloud_by_place(lat, long):
+        if abs(float(lat) - 0.3) < 1e-12:
+            return float("nan")
+        return 9.0 if lat > 0 else 0.5
+
+    try:
+        with dask.config.set(scheduler="synchronous"):
+            want = [CphotAng(33.0).run(*[x[j] for x in twins], None if j == 2 else cloud_by_place) for j in range(m_)]
+            d, a = CphotAng(33.0)(*[x.copy() for x in twins], cloud_by_place)
+        wd, wa = np.asarray([r[0] for r in want], dtype=float), np.asarray([r[1] for r in want], dtype=float)
+        d, a = np.asarray(d, dtype=float), np.asarray(a, dtype=float)
+        same = d.shape == wd.shape and np.array_equal(d, wd, equal_nan=True) and np.array_equal(a, wa, equal_nan=True) and len(set(np.round(wd, 6))) > 1
+        obs = {"batch": d.tolist(), "one-at-a-time (event 2 without cloud)": wd.tolist()}
+    except Exception as ex:
+        same, obs = False, "raised %r" % ex
+    if not same:
+        fails.append({"obligation": "bounded.batch_sizes", "clause": "every event is evaluated with the cloud top at ITS OWN location, also when other events of the batch have the same angle, altitude and energy; an undefined (NaN) cloud top hides nothing",
+                      "input": {"events": m_, "beta_deg": 8.0, "altDec": 1.5, "E": 1.0, "latitudes": twins[3].tolist(), "cloud_model": "9 km where lat > 0, 0.5 km elsewhere, NaN at lat 0.3", "detector_altitude": 33.0}, "observed": obs})
+    return fails
+
+
 def bounded(ck, big=False):
     import contextlib
     import io
@@ -332,30 +364,9 @@ def bounded(ck, big=False):
             if not same:
                 fails.append({"obligation": "bounded.batch_sizes", "clause": "a batch of any size (1, one partition, partition boundaries) with a cloud model == [run(x, cloud) for x in batch], bit for bit",
                               "input": {"events": m_, "detector_altitude": 33.0, "cloud_model": "70 km for events 0 and 100, 6 km where lat > 0, none elsewhere", "seed": ck.seed}, "observed": obs})
-        # events that are identical in angle, altitude and energy but start at different places under a location-dependent cloud model, and an
-        # event whose cloud top is undefined (NaN: no value in the map there -- nothing is hidden, as without a cloud)
-        m_ = 6
-        twins = [np.full(m_, np.radians(8.0)), np.full(m_, 1.5), np.full(m_, 1.0), np.array([0.1, -0.2, 0.3, -0.4, 0.5, -0.6]), np.linspace(-1.0, 1.0, m_)]
-
-        def cloud_by_place(lat, long):
-            if abs(float(lat) - 0.3) < 1e-12:
-                return float("nan")
-            return 9.0 if lat > 0 else 0.5
-
-        nev += m_
-        try:
-            with dask.config.set(scheduler="synchronous"):
-                want = [CphotAng(33.0).run(*[x[j] for x in twins], None if j == 2 else cloud_by_place) for j in range(m_)]
-                d, a = CphotAng(33.0)(*[x.copy() for x in twins], cloud_by_place)
-            wd, wa = np.asarray([r[0] for r in want], dtype=float), np.asarray([r[1] for r in want], dtype=float)
-            d, a = np.asarray(d, dtype=float), np.asarray(a, dtype=float)
-            same = d.shape == wd.shape and np.array_equal(d, wd, equal_nan=True) and np.array_equal(a, wa, equal_nan=True) and len(set(np.round(wd, 6))) > 1
-            obs = {"batch": d.tolist(), "one-at-a-time (event 2 without cloud)": wd.tolist()}
-        except Exception as ex:
-            same, obs = False, "raised %r" % ex
-        if not same:
-            fails.append({"obligation": "bounded.batch_sizes", "clause": "every event is evaluated with the cloud top at ITS OWN location, also when other events of the batch have the same angle, altitude and energy; an undefined (NaN) cloud top hides nothing",
-                          "input": {"events": m_, "beta_deg": 8.0, "altDec": 1.5, "E": 1.0, "latitudes": twins[3].tolist(), "cloud_model": "9 km where lat > 0, 0.5 km elsewhere, NaN at lat 0.3", "detector_altitude": 33.0}, "observed": obs})
+        tw = twins_design(ck)
+        nev += 6
+        fails += tw
         # per-event arrays that do not share one element type: every event reaches the kernel with the element types it has one at a time
         m_ = 7
         mixes = {"float32 altitudes": lambda x: [x[0], x[1].astype(np.float32), x[2], x[3], x[4]],
